@@ -169,7 +169,7 @@ def stack_rewrites(it, calls=True):
     t, k = re.subn(r'\bstack\[([^\[\]]+)\]', r'shim_stack_slice(stack, \1)', it.text)
     if k:
         it.log.append(('R3', 'stack[E] -> shim_stack_slice(stack, E)  x%d' % k))
-    t, k = re.subn(r'(shim_stack_slice\(stack, [^;\n]*?\))\.iter\(\)\.rev\(\)', r'outlined_iter_rev(\1)', t)
+    t, k = re.subn(r'(shim_stack_slice\(stack, [^;\n]*?\)|\b[A-Za-z_]\w*(?:\.[A-Za-z_]\w*)*)\.iter\(\)\.rev\(\)', r'outlined_iter_rev(\1)', t)
     if k:
         it.log.append(('R3', 'S.iter().rev() -> outlined_iter_rev(S)  x%d' % k))
     if calls:
